@@ -225,7 +225,7 @@ def finalize(res, tier):
     lim = LIMITS[tier]
     missing = []
     for entry, n, b, w in big_configs(lim['bmax'], lim['wmax']):
-        if entry in ('chain', 'chainmid'):
+        if entry in ('chain', 'chainmid', 'chainpar'):
             continue
         tp, ts = TIGHT[entry](b, w)
         key = f'{entry}:b{b}:w{w}'
